@@ -213,6 +213,15 @@ func c18Shapes() []c18Shape {
 	for _, u := range c18Unsat() {
 		out = append(out, c18Shape{pred: u, unsat: true})
 	}
+	// an unsatisfiable conjunction stays unsatisfiable under a further pin, on either side
+	k := ref.Key
+	more := []*ref.Expr{ref.Bin(">", k(), ref.S("a")), ref.Bin("<=", k(), ref.S("c")), ref.Btw(k(), ref.S("a"), ref.S("c")), ref.Bin("^=", k(), ref.S("a")), ref.Bin("=", k(), ref.S("b")), ref.In(k(), ref.S("a"), ref.S("c"))}
+	for _, u := range c18Unsat() {
+		for _, m := range more {
+			out = append(out, c18Shape{pred: ref.Bin("&", u.Clone(), m.Clone()), unsat: true})
+			out = append(out, c18Shape{pred: ref.Bin("and", m.Clone(), u.Clone()), unsat: true})
+		}
+	}
 	c18ShapesCache = out
 	return out
 }
@@ -435,6 +444,20 @@ func c18ShapeOf(pred *ref.Expr) c18Shape {
 		for j := i + 1; j < len(sh.pins); j++ {
 			if disjointKeySets(sh.pins[i], sh.pins[j]) {
 				sh.unsat = true
+			}
+		}
+	}
+	// two conjuncts that form one of the listed unsatisfiable pairs
+	norm := func(t string) string { return strings.ReplaceAll(t, " and ", " & ") }
+	for i := range conj {
+		for j := range conj {
+			if i != j {
+				pair := norm(ref.Bin("&", conj[i].Clone(), conj[j].Clone()).Render())
+				for _, u := range c18Unsat() {
+					if norm(u.Render()) == pair {
+						sh.unsat = true
+					}
+				}
 			}
 		}
 	}
